@@ -29,6 +29,36 @@ func c20(c *Ctx) {
 	c10R3(c, "R8/C10.R3")
 	// the burned index must stay a gap: it is what forces followers onto InstallSnapshot
 	sStoreWriters(c, "R9/S-WRITERS")
+	sSendsNewestSnapshot(c, "R10")
+}
+
+// sSendsNewestSnapshot: the only way across the index gap a user Restore (or
+// a compaction) leaves is the newest snapshot of the store. sendLatestSnapshot
+// asks the store for its listing in this very call and opens entry 0 of it –
+// never an ID remembered from earlier: the store is also written by
+// installSnapshot and by the snapshot goroutine (round-8 seed C20-O: a cached
+// ID made a new leader ship its pre-restore snapshot for ever).
+func sSendsNewestSnapshot(c *Ctx, rule string) {
+	fn := c.Fn(rule, "(*Raft).sendLatestSnapshot")
+	if fn == nil {
+		return
+	}
+	opens := c.P.CallsIn(fn, engine.Is("iface:SnapshotStore.Open"))
+	if len(opens) == 0 {
+		c.Bad(rule, "sendLatestSnapshot:open", c.P.Pos(fn.Pos()), "a SnapshotStore.Open call", "none")
+		return
+	}
+	r := c.Run(&engine.Automaton{Fn: fn, Tracks: []engine.Track{
+		engine.Event("listed", c.P.IsCallTo(engine.Is("iface:SnapshotStore.List"))),
+		predErr("listErr", "recv.snapshots.List()"),
+		engine.PredRel("none", "len(recv.snapshots.List()#0)", "0", engine.EQ),
+	}})
+	for _, s := range opens {
+		a := c.P.Arg(s.Instr, 0)
+		c.RequireAt(r, rule, "sendLatestSnapshot:opens-newest-of-a-fresh-listing", s.Instr, "Open(List()[0].ID) with List() called in this invocation, checked for error and emptiness", func(v engine.View) bool {
+			return a == "recv.snapshots.List()#0[0].ID" && v.Seen("listed") && v.F("listErr") && v.F("none")
+		})
+	}
 }
 
 func c20R1345(c *Ctx) {
@@ -151,11 +181,19 @@ func c20R1345(c *Ctx) {
 
 	// R3: cancellation loop
 	front := "recv.leaderState.inflight.Front()"
+	frontIsNilOnTrue := true
 	var loopIf *ssa.If
 	engine.EachInstr(fn, func(in ssa.Instruction) {
 		if ifi, ok := in.(*ssa.If); ok {
-			if s, ok := c.P.CondOf(ifi.Cond).RelOn(front, "nil"); ok && s == engine.EQ {
+			cdl := c.P.CondOf(ifi.Cond)
+			if s, ok := cdl.RelOn(front, "nil"); ok && (s == engine.EQ || s == engine.LT|engine.GT) {
 				loopIf = ifi
+				frontIsNilOnTrue = s == engine.EQ
+			} else if ph, isPhi := cdl.XV.(*ssa.Phi); isPhi && cdl.IsRel && cdl.Y == "nil" && len(ph.Edges) == 2 && c.P.D(ph.Edges[0]) == front && c.P.D(ph.Edges[1]) == front {
+				// for e := Front(); e != nil; e = Front() { … }
+				loopIf = ifi
+				frontIsNilOnTrue = cdl.EdgeOrd(true) == engine.EQ
+				front = c.P.D(ph)
 			}
 		}
 	})
@@ -163,6 +201,9 @@ func c20R1345(c *Ctx) {
 		c.Bad("R3", "restoreUserSnapshot:cancel-loop", c.P.Pos(fn.Pos()), "a loop `e := inflight.Front(); if e == nil {break}`", "not found")
 	} else {
 		body := loopIf.Block().Succs[1]
+		if !frontIsNilOnTrue {
+			body = loopIf.Block().Succs[0]
+		}
 		rb := c.Run(&engine.Automaton{Fn: fn, StartBlock: body, StopAt: func(in ssa.Instruction) bool { return in == ssa.Instruction(loopIf) }, Tracks: []engine.Track{
 			engine.Event("answered", func(in ssa.Instruction) bool {
 				cc := engine.CallCommonOf(in)
@@ -432,7 +473,9 @@ func c20R6(c *Ctx, rule string) {
 				c.RequireAt(r, rule, fmt.Sprintf("Restore:return#%d", i+1), ret, "a freshly built error is returned only before the restore was enqueued (a refusal without effect)", func(v engine.View) bool { return !v.Seen("asked") && !v.Seen("noop") })
 				continue
 			}
-			c.Bad(rule, fmt.Sprintf("Restore:return#%d", i+1), c.P.InstrPos(ret), "one of the five documented outcomes", "returns "+d)
+			// any other error value returned before anything was enqueued (an
+			// argument check done by a helper) is a refusal without effect too
+			c.RequireAt(r, rule, fmt.Sprintf("Restore:return#%d", i+1), ret, "an error other than the documented outcomes is returned only before the restore was enqueued (a refusal without effect); returns "+d, func(v engine.View) bool { return !v.Seen("asked") && !v.Seen("noop") })
 		}
 	}
 	if nilRet != 1 {
